@@ -9,7 +9,7 @@ import CrCube.Model.Val
 
 namespace CrCube
 
-structure Blocks where
+structure ABlocks where
   nr : Nat          -- base rows
   nc : Nat          -- base columns
   nir : Nat         -- inserted rows
@@ -23,15 +23,15 @@ structure Blocks where
 def wrapIdx (n : Nat) (i : Int) : Nat := if i < 0 then (n + i).toNat else i.toNat
 
 /-- `np.block([[body, insCols],[insRows, inter]])[i, j]` -/
-def Blocks.full (b : Blocks) (i j : Nat) : Val :=
+def ABlocks.full (b : ABlocks) (i j : Nat) : Val :=
   if i < b.nr then (if j < b.nc then b.body i j else b.insCols i (j - b.nc))
   else (if j < b.nc then b.insRows (i - b.nr) j else b.inter (i - b.nr) (j - b.nc))
 
-def Blocks.cell (b : Blocks) (si sj : Int) : Val :=
+def ABlocks.cell (b : ABlocks) (si sj : Int) : Val :=
   b.full (wrapIdx (b.nr + b.nir) si) (wrapIdx (b.nc + b.nic) sj)
 
 /-- `_assemble_matrix` -/
-def assembleMatrix (b : Blocks) (ro co : List Int) : List (List Val) :=
+def assembleMatrix (b : ABlocks) (ro co : List Int) : List (List Val) :=
   ro.map fun si => co.map (b.cell si)
 
 /-- a marginal / vector: `np.hstack([base, inserted])[order]` -/
